@@ -86,6 +86,12 @@ def phi(c, a, b):
         return a
     if c == FALSE:
         return b
+    if isinstance(a, tuple) and isinstance(b, tuple) and a and b and a[0] == 'struct' and b[0] == 'struct' \
+            and isinstance(a[2], dict) and isinstance(b[2], dict) and a[2] and set(a[2]) == set(b[2]):
+        # a selection between two struct values is the struct of the selections (fields are read one by one)
+        return ('struct', a[1], {k: phi(c, a[2][k], b[2][k]) for k in a[2]})
+    if isinstance(a, tuple) and isinstance(b, tuple) and a and b and a[0] == 'tuple' and b[0] == 'tuple' and len(a[1]) == len(b[1]):
+        return ('tuple', tuple(phi(c, x, y) for x, y in zip(a[1], b[1])))
     return ('phi', c, a, b)
 
 
@@ -240,8 +246,27 @@ class VG:
                 return ('tuple', tuple(self.fields[k] for k in comps))
             if path in self.const_fields:
                 return self.const_fields[path]
+            if any(k.startswith(path + '.') for k in self.fields) and self._is_plain_struct_field(path):
+                # a struct-typed field read as a whole after some of its fields were written: the struct of its cells
+                names, adt = self._struct_field_names(path)
+                return ('struct', adt, {n_: self.get_field(path + '.' + n_) for n_ in names})
             self.fields[path] = ('in', path)
         return self.fields[path]
+
+    def _is_plain_struct_field(self, path):
+        """path names a field whose type is a struct of this crate that is not a View (a group of state cells)."""
+        try:
+            ty = self.child_type('', path)
+        except Exception:
+            ty = None
+        if not ty or ty.get('adt') not in self.F.adts or ty.get('adt') in self.view_by_adt:
+            return False
+        a = self.F.adts[ty['adt']]
+        return a.get('kind') == 'Struct' and len(a.get('variants', [])) == 1
+
+    def _struct_field_names(self, path):
+        ty = self.child_type('', path)
+        return [f['name'] for f in self.F.adts[ty['adt']]['variants'][0]['fields']], ty['adt']
 
     def set_field(self, path, t, node=None):
         if isinstance(t, tuple) and t and t[0] == 'tuple':
@@ -250,9 +275,19 @@ class VG:
                 self.set_field('%s.%d' % (path, i), x, node)
             self.fields.pop(path, None)
             return
-        if isinstance(t, tuple) and t and t[0] == 'struct' and isinstance(t[2], dict) and t[2] and any(k.startswith(path + '.') for k in list(self.fields)):
+        if isinstance(t, tuple) and t and t[0] == 'struct' and isinstance(t[2], dict) and t[2] and (
+                any(k.startswith(path + '.') for k in list(self.fields)) or self._is_plain_struct_field(path)):
+            # a struct-typed field written as a whole: its fields are the cells `path.f` (that is how they are read)
             for k_, x in t[2].items():
                 self.set_field('%s.%s' % (path, k_), x, node)
+            self.fields.pop(path, None)
+            return
+        if isinstance(t, tuple) and t and t[0] not in ('struct', 'in', 'tuple') and '.' not in path[-2:] and self._is_plain_struct_field(path):
+            # a struct-typed field overwritten with a value that is not a struct literal: its cells are the projections of that
+            # value (never the stale cells)
+            names, _ = self._struct_field_names(path)
+            for n_ in names:
+                self.set_field(path + '.' + n_, ('fieldof', t, n_), node)
             self.fields.pop(path, None)
             return
         self.fields[path] = t
@@ -271,6 +306,8 @@ class VG:
         if not self.dead:
             fr.exits.append(Exit(tuple(self.pc), dict(self.fields), ret, fn.body, 'end'))
         self.frames.pop()
+        if self.view is not None:
+            aos_normalise(self, fr.exits)
         return fr.exits
 
     def push_frame(self, fn, prefix, args):
@@ -468,7 +505,13 @@ class VG:
         if k == 'pref':
             return self.pat_cond(p['pat'], v)
         if k == 'pslice':
-            return conj([self.pat_cond(sp, self.seq_elem(v, i)) for i, sp in enumerate(p['pats'])])
+            cs = [self.pat_cond(sp, self.seq_elem(v, i)) for i, sp in enumerate(p['pats'])]
+            if p.get('rest'):
+                # `[a, .., y, z]` matches a slice of at least that many elements; `y`, `z` count from the end
+                na = len(p.get('after', []))
+                cs.append(op('ge', self.seq_len_term(v), lit(len(p['pats']) + na, 'i')))
+                cs += [self.pat_cond(sp, self.seq_elem_end(v, na - j)) for j, sp in enumerate(p.get('after', []))]
+            return conj(cs)
         if k == 'pstruct' and not pat_is_some(p) and not pat_is_none(p):
             return TRUE
         if k == 'por':
@@ -536,6 +579,9 @@ class VG:
         if k == 'pslice':
             for i, sp in enumerate(p['pats']):
                 self.bind_pat(sp, self.seq_elem(v, i), fr)
+            na = len(p.get('after', []))
+            for j, sp in enumerate(p.get('after', [])):
+                self.bind_pat(sp, self.seq_elem_end(v, na - j), fr)
             return
         if k == 'pref':
             if isinstance(v, tuple) and v and v[0] == 'ref':
@@ -641,6 +687,15 @@ class VG:
             # `T::zero` / `T::one` passed as a function value (`unwrap_or_else(T::zero)`): the closure `|| 0.0` / `|| 1.0`
             node = {'k': 'closure', 'params': [], 'body': {'k': 'lit', 'lit': 'float', 'v': str(FLOAT_CONSTS[short]), 'ty': e.get('ty', ''), 'sp': e.get('sp')}, 'sp': e.get('sp')}
             return ('closure', id(e), node)
+        tgt = self.F.fn_by_def.get(e['def']) if e.get('callee', {}).get('krate') == self.F.raw['crate'] else None
+        if tgt is not None and e.get('defkind', '').startswith(('Fn', 'AssocFn')):
+            # a function of this crate passed as a value (`max_by(cmp_or_equal)`): the closure `|p0, ..| f(p0, ..)`
+            ids = tgt.param_ids()
+            if not (ids and ids[0][1] == 'self'):
+                params = [{'k': 'bind', 'id': 'fnval%d_%d' % (id(e) % 100000, i), 'name': 'p%d' % i} for i in range(len(ids))]
+                call = {'k': 'call', 'callee': e['callee'], 'args': [{'k': 'local', 'id': p_['id'], 'name': p_['name'], 'ty': ''} for p_ in params],
+                        'ty': '', 'sp': e.get('sp')}
+                return ('closure', id(e), {'k': 'closure', 'params': params, 'body': call, 'sp': e.get('sp')})
         if e.get('defkind') == 'Ctor(Variant, Const)' and e.get('callee', {}).get('krate') == self.F.raw['crate']:
             return ('const', name)      # a unit variant of an enum of this crate
         return ('fnref', name)
@@ -762,7 +817,12 @@ class VG:
     def v_index(self, e, fr):
         b = self.value(e['base'], fr)
         i = self.value(e['idx'], fr)
-        self.event('index', (b, i), e)
+        if isinstance(i, tuple) and i and i[0] == 'range':
+            # `x[a..b]`: the slice obligation a <= b <= len, not an element access
+            hi = i[2] if i[2] is not None else ('len', b)
+            self.event('slice', (b, i[1], _iadd(hi, lit(1, 'i')) if i[3] else hi), e)
+        else:
+            self.event('index', (b, i), e)
         return ('get', b, i)
 
     def seq_elem(self, v, i):
@@ -777,6 +837,31 @@ class VG:
             return phi(v[1], self.seq_elem(v[2], i), self.seq_elem(v[3], i))
         return ('get', v, lit(i, 'i'))
 
+    def _slice_parts(self, v):
+        """(base sequence, lo, hi) of a slice value `base[lo..hi]`, or (v, 0, len v) for a whole sequence."""
+        if isinstance(v, tuple) and v and v[0] == 'ref':
+            v = self.read_place(v[1])
+        if isinstance(v, tuple) and v and v[0] == 'get' and isinstance(v[2], tuple) and v[2] and v[2][0] == 'range':
+            r = v[2]
+            hi = r[2] if r[2] is not None else ('len', v[1])
+            if r[3]:
+                hi = _iadd(hi, lit(1, 'i'))
+            return v[1], r[1], hi
+        if isinstance(v, tuple) and v and v[0] == 'seq_lit':
+            return v, lit(0, 'i'), lit(len(v[1]), 'i')
+        return v, lit(0, 'i'), ('len', v)
+
+    def seq_len_term(self, v):
+        base, lo, hi = self._slice_parts(v)
+        return _isub(hi, lo)
+
+    def seq_elem_end(self, v, k):
+        """k-th element from the end (k = 1 is the last one) of a sequence or slice value."""
+        base, lo, hi = self._slice_parts(v)
+        if isinstance(base, tuple) and base and base[0] == 'seq_lit' and hi == lit(len(base[1]), 'i') and k <= len(base[1]):
+            return base[1][len(base[1]) - k]
+        return ('get', base, _isub(hi, lit(k, 'i')))
+
     def v_repeat(self, e, fr):
         # [x; N]: a fixed-size array with N copies (N is part of the type)
         import re as _re
@@ -790,7 +875,7 @@ class VG:
         return ('tuple', tuple(self.value_noderef(x, fr) for x in e['es']))
 
     def v_array(self, e, fr):
-        return ('seq_lit', tuple(self.value(x, fr) for x in e['es']))
+        return ('seq_lit', tuple(self.value_noderef(x, fr) for x in e['es']))
 
     def v_cast(self, e, fr):
         return op('cast:' + e.get('ty', '?'), self.value(e['e'], fr))
@@ -1180,6 +1265,18 @@ class VG:
     def v_for(self, e, fr, it=None):
         if it is None:
             it = self.value_noderef(e['iter'], fr)
+            lit_ = it
+            if isinstance(lit_, tuple) and lit_ and lit_[0] in ('iter', 'copied') and isinstance(lit_[1], tuple) and lit_[1] and lit_[1][0] == 'seq_lit':
+                lit_ = lit_[1]
+            if isinstance(lit_, tuple) and lit_ and lit_[0] == 'seq_lit' and len(lit_[1]) <= 8 \
+                    and not any(n.get('k') in ('break', 'continue') for n in walk(e['body'])):
+                # a loop over an array literal is its unrolling: the body once per element, in order
+                for x_ in lit_[1]:
+                    if self.dead:
+                        break
+                    self.bind_pat(e['pat'], x_, fr)
+                    self.block_value(e['body'], fr)
+                return ('unit',)
         if self.dead:
             return unk('dead')
         if isinstance(it, tuple) and it and it[0] == 'ref' and isinstance(it[1], tuple) and it[1][0] in ('field', 'local', 'elem'):
@@ -2439,6 +2536,210 @@ def exits_value(exits, getter):
         c = conj(list(ex.pc))
         acc = phi(c, getter(ex), acc)
     return acc
+
+
+SEQ_ADTS = ('std::vec::Vec', 'std::collections::VecDeque')
+
+
+def aos_components(vg, path):
+    """Names of the element fields if `path` is a Vec/VecDeque whose elements are a plain struct of this crate or a tuple
+    (an array of structs), else None."""
+    cache = vg.__dict__.setdefault('_aos_cache', {})
+    if path in cache:
+        return cache[path]
+    names = None
+    try:
+        ty = vg.child_type('', path)
+    except Exception:
+        ty = None
+    if isinstance(ty, dict) and ty.get('adt') in SEQ_ADTS and ty.get('args'):
+        el = ty['args'][0]
+        if isinstance(el, dict) and isinstance(el.get('tuple'), list) and len(el['tuple']) >= 2:
+            names = [str(i) for i in range(len(el['tuple']))]
+        elif isinstance(el, dict) and el.get('adt') in vg.F.adts and el.get('adt') not in vg.view_by_adt:
+            a = vg.F.adts[el['adt']]
+            if a.get('kind') == 'Struct' and len(a.get('variants', [])) == 1 and a['variants'][0]['fields']:
+                names = [f['name'] for f in a['variants'][0]['fields']]
+    cache[path] = names
+    return names
+
+
+def _aos_root(vg, S):
+    """The AoS field a sequence term is rooted at (through push/pop/phi/set), or None."""
+    seen = 0
+    while isinstance(S, tuple) and S and seen < 200:
+        seen += 1
+        if S[0] == 'in':
+            return S[1] if aos_components(vg, S[1]) else None
+        if S[0] in ('push_back', 'push_front', 'pop_front', 'pop_back', 'set', 'set_back', 'set_front', 'skip', 'take'):
+            S = S[1]
+        elif S[0] == 'phi':
+            r = _aos_root(vg, S[2])
+            return r if r else _aos_root(vg, S[3])
+        else:
+            return None
+    return None
+
+
+def _aos_field_of(x, f):
+    """Field f of an element value."""
+    if isinstance(x, tuple) and x:
+        if x[0] == 'struct' and isinstance(x[2], dict) and f in x[2]:
+            return x[2][f]
+        if x[0] == 'tuple' and f.isdigit() and int(f) < len(x[1]):
+            return x[1][int(f)]
+        if x[0] == 'phi':
+            return phi(x[1], _aos_field_of(x[2], f), _aos_field_of(x[3], f))
+        if x[0] == 'some':
+            return some(_aos_field_of(x[1], f))
+    return ('proj', x, int(f)) if f.isdigit() else ('fieldof', x, f)
+
+
+def _aos_project(vg, S, f):
+    """The sequence of the f-components of the elements of S (structure of arrays)."""
+    if not isinstance(S, tuple) or not S:
+        return S
+    k = S[0]
+    if k == 'in':
+        return ('in', S[1] + '.' + f)
+    if k in ('push_back', 'push_front'):
+        return (k, _aos_project(vg, S[1], f), _aos_field_of(S[2], f))
+    if k in ('pop_front', 'pop_back'):
+        return (k, _aos_project(vg, S[1], f))
+    if k == 'phi':
+        return phi(S[1], _aos_project(vg, S[2], f), _aos_project(vg, S[3], f))
+    if k == 'seq_new':
+        return S
+    if k == 'set':
+        return ('set', _aos_project(vg, S[1], f), S[2], _aos_field_of(S[3], f))
+    if k in ('set_back', 'set_front'):
+        return (k, _aos_project(vg, S[1], f), _aos_field_of(S[2], f))
+    if k in ('skip', 'take'):
+        return (k, _aos_project(vg, S[1], f), S[2])
+    return ('projseq', S, f)
+
+
+def aos_normalise(vg, exits):
+    """A queue of small structs / tuples is the same state as one queue per component, pushed and popped together. Rewrite
+    every term accordingly (array of structs -> structure of arrays): `front(q).f` becomes `front(q.f)`, `len(q)` the length
+    of the first component, the cell `q` the cells `q.f`; the rules then see the same shapes as for parallel queues."""
+    from .terms import map_term
+    # quick exit: is there any AoS field at all?
+    if vg.view is None or not getattr(vg.view, 'adt', None):
+        return
+    if not vg.__dict__.get('_has_aos'):
+        has = False
+
+        def scan(adt, prefix, depth):
+            nonlocal has
+            for fld in adt['variants'][0]['fields']:
+                if aos_components(vg, prefix + fld['name']):
+                    has = True
+                ty = fld['ty']
+                inner = vg.F.adts.get(ty.get('adt')) if isinstance(ty, dict) else None
+                if inner is not None and inner.get('kind') == 'Struct' and len(inner.get('variants', [])) == 1 and depth < 3:
+                    scan(inner, prefix + fld['name'] + '.', depth + 1)
+        try:
+            scan(vg.view.adt, '', 0)
+        except Exception:
+            has = False
+        vg._has_aos = 'yes' if has else 'no'
+    if vg._has_aos != 'yes':
+        return
+    memo = {}
+
+    def f(n):
+        k = n[0]
+        if k == 'op':
+            return op(n[1], *n[2])
+        if k in ('fieldof', 'proj'):
+            E, name = n[1], str(n[2])
+            if isinstance(E, tuple) and E:
+                if E[0] in ('front', 'back') and _aos_root(vg, E[1]):
+                    return (E[0], _aos_project(vg, E[1], name))
+                if E[0] == 'get' and _aos_root(vg, E[1]):
+                    return ('get', _aos_project(vg, E[1], name), E[2])
+                if E[0] in ('struct', 'tuple', 'phi'):
+                    r = _aos_field_of(E, name)
+                    if r != n:
+                        return map_term(r, f, memo) if r[0] in ('fieldof', 'proj') else r
+            return n
+        if k == 'len' and _aos_root(vg, n[1]):
+            root = _aos_root(vg, n[1])
+            return ('len', _aos_project(vg, n[1], aos_components(vg, root)[0]))
+        if k == 'iter' and isinstance(n[1], tuple) and _aos_root(vg, n[1]):
+            root = _aos_root(vg, n[1])
+            return ('iter', _aos_project(vg, n[1], aos_components(vg, root)[0]))
+        return n
+
+    def rw(t):
+        return map_term(t, f, memo) if isinstance(t, tuple) else t
+
+    def rw_fields(fields):
+        out = {}
+        for key, t in fields.items():
+            names = aos_components(vg, key)
+            t2 = rw(t)
+            if names:
+                for nm in names:
+                    out[key + '.' + nm] = _aos_project(vg, t2, nm)
+            else:
+                out[key] = t2
+        return out
+
+    for ex in exits:
+        ex.pc = tuple(rw(c) for c in ex.pc)
+        ex.fields = rw_fields(ex.fields)
+        if isinstance(ex.ret, tuple) and ex.ret and ex.ret[0] == 'struct' and isinstance(ex.ret[2], dict):
+            # a constructor's result: split the array-of-structs fields here as well
+            d2 = {}
+            for key, t in ex.ret[2].items():
+                names = aos_components(vg, key)
+                if names:
+                    for nm in names:
+                        d2[key + '.' + nm] = _aos_project(vg, rw(t), nm)
+                else:
+                    d2[key] = rw(t)
+            ex.ret = ('struct', ex.ret[1], d2)
+        else:
+            ex.ret = rw(ex.ret)
+    vg.fields = rw_fields(vg.fields)
+    new_events = []
+    for ev in vg.events:
+        ev.pc = tuple(rw(c) for c in ev.pc)
+        if ev.kind == 'grow' and isinstance(ev.data, tuple) and len(ev.data) == 2 and isinstance(ev.data[0], tuple) \
+                and ev.data[0][0] == 'field' and aos_components(vg, ev.data[0][1]):
+            for nm in aos_components(vg, ev.data[0][1]):
+                new_events.append(Event('grow', ev.pc, (('field', ev.data[0][1] + '.' + nm), _aos_project(vg, rw(ev.data[1]), nm)), ev.node, ev.ctx))
+            continue
+        if isinstance(ev.data, tuple):
+            ev.data = tuple(rw(x) if isinstance(x, tuple) else x for x in ev.data)
+        new_events.append(ev)
+    vg.events[:] = new_events
+    for L, info in vg.loops.items():
+        if isinstance(info.get('iter'), tuple):
+            info['iter'] = rw(info['iter'])
+        info['hyps'] = [rw(h) for h in info.get('hyps', [])]
+        info['carried'] = {key: (rw(a), rw(b) if b is not None else None) for key, (a, b) in info.get('carried', {}).items()}
+    for cp, feeds in vg.child_fed.items():
+        vg.child_fed[cp] = [(tuple(rw(c) for c in pc_), rw(a_), n_) for pc_, a_, n_ in feeds]
+    neww = []
+    for (path, t, pc_, node) in vg.writes:
+        names = aos_components(vg, path)
+        if names:
+            for nm in names:
+                neww.append((path + '.' + nm, _aos_project(vg, rw(t), nm), tuple(rw(c) for c in pc_), node))
+        else:
+            neww.append((path, rw(t), tuple(rw(c) for c in pc_), node))
+    vg.writes[:] = neww
+    # an element used as a whole (not through its fields) is not covered by this normal form: fail closed
+    for ex in exits:
+        for t in list(ex.fields.values()) + [ex.ret] + list(ex.pc):
+            if isinstance(t, tuple):
+                for x in subterms(t):
+                    if x[0] == 'in' and aos_components(vg, x[1]):
+                        vg.unknowns.append(('array-of-structs element used as a whole: %s' % x[1], '?'))
+                        return
 
 
 def flatten_struct(F, ret, prefix=''):
